@@ -222,7 +222,7 @@ Qed.
 Lemma add_heads_single_heads s n h :
   In h (v_heads (s_v (add_heads s [n]))) -> h = n \/ In h (v_heads (s_v s)).
 Proof.
-  unfold add_heads. destruct (forallb _ _); cbn [set_view s_v view_replace_heads view_add_head set_heads v_heads]; intros H.
+  unfold add_heads. destruct (_ && _); cbn [set_view s_v view_replace_heads view_add_head set_heads v_heads]; intros H.
   - apply fold_remn_In in H. destruct H as [H _]. now apply ins_In in H.
   - now apply ins_In in H.
 Qed.
